@@ -10,6 +10,7 @@ import (
 	"io"
 	"net"
 	"strconv"
+	"strings"
 	"testing"
 	"time"
 
@@ -97,9 +98,11 @@ func (c *c33FakeConn) Read(b []byte) (int, error) {
 	c.pos += n
 	return n, nil
 }
-func (c *c33FakeConn) Write(b []byte) (int, error)      { return len(b), nil }
-func (c *c33FakeConn) Close() error                     { return nil }
-func (c *c33FakeConn) LocalAddr() net.Addr              { return &net.TCPAddr{IP: net.IPv4(192, 0, 2, 1), Port: 25565} }
+func (c *c33FakeConn) Write(b []byte) (int, error) { return len(b), nil }
+func (c *c33FakeConn) Close() error                { return nil }
+func (c *c33FakeConn) LocalAddr() net.Addr {
+	return &net.TCPAddr{IP: net.IPv4(192, 0, 2, 1), Port: 25565}
+}
 func (c *c33FakeConn) RemoteAddr() net.Addr             { return c.remote }
 func (c *c33FakeConn) SetDeadline(time.Time) error      { return nil }
 func (c *c33FakeConn) SetReadDeadline(time.Time) error  { return nil }
@@ -479,4 +482,70 @@ func TestVerif_C33(t *testing.T) {
 	verifkit.Check(t, "C33", "wrapconn",
 		"fake net.Conn with generated RemoteAddr (TCPAddr / textual addr: v4, v6, IPv4-mapped, IPv4-compatible, zoned; pipe; unix) derived from a trusted entry by flipping the last prefix bit / first host bit / a random bit, 1-3 trusted IPs/CIDRs or the default set, first bytes PROXY v1 / v2 / v1 UNKNOWN / v2 LOCAL / none followed by a Minecraft-like payload in generated read chunks; header honoured <=> reference membership, header from non-member => read error and own address, no header => own address and intact bytes; non-trivial = header present and peer within one bit of a prefix boundary, mapped or zoned",
 		c33PGen, c33PRun)
+}
+
+// ---------------------------------------------------------------- configured lists without a usable entry
+
+// c33LCase: a trusted-proxies list as an operator's file may contain it - entries
+// that are blank or are no IP/CIDR at all - and a peer from the documented default
+// ranges that sends a PROXY v1 header.
+type c33LCase struct {
+	Entries []string `json:"entries"`
+	Peer    []byte   `json:"peer"` // IPv4 from a default-trusted range
+}
+
+func c33LRun(c c33LCase) verifkit.Result {
+	if len(c.Entries) == 0 || len(c.Peer) != 4 {
+		return verifkit.Result{Inconclusive: true, Labels: []string{"invalid-case"}}
+	}
+	blankOnly := true
+	for _, e := range c.Entries {
+		if strings.TrimSpace(e) != "" {
+			blankOnly = false
+		}
+	}
+	label := "entries:not-a-network"
+	if blankOnly {
+		label = "entries:blank-only"
+	}
+	pp, err := newProxyProtocol(&config.Config{ProxyProtocol: true, ProxyProtocolTrustedProxies: c.Entries})
+	if err != nil {
+		// refused: nothing is trusted
+		return verifkit.Result{NonTrivial: true, Labels: []string{label, "list-refused"}}
+	}
+	// accepted: then at least nobody the operator never named may be trusted
+	hdr := c33PHeader{Kind: "v1", Src: []byte{203, 0, 113, 9}, Dst: []byte{198, 51, 100, 1}, SrcPort: 40000, DstPort: 25565}.c33Bytes()
+	own := &net.TCPAddr{IP: net.IP(c.Peer), Port: 50123}
+	fc := &c33FakeConn{data: append(append([]byte{}, hdr...), 0x01, 0x00), first: len(hdr), chunk: 64, remote: own}
+	wrapped := pp.wrapConnTimeout(fc, proxyProtocolReadHeaderTimeout)
+	buf := make([]byte, 64)
+	var readErr error
+	for i := 0; i < 100 && readErr == nil; i++ {
+		_, readErr = wrapped.Read(buf)
+	}
+	if got := wrapped.RemoteAddr(); got != nil && got.String() != own.String() {
+		return verifkit.Fail("wrap:unconfigured-peer-trusted",
+			"proxyProtocolTrustedProxies is configured as %q - no entry is a valid IP or CIDR - yet a PROXY header from peer %s changed the client address to %s", c.Entries, own, got)
+	}
+	return verifkit.Result{NonTrivial: true, Labels: []string{label, "list-accepted-nobody-trusted"}}
+}
+
+func c33LGen(t *rapid.T) c33LCase {
+	blank := []string{"", " ", "\t", "  ", "\n"}
+	junk := []string{"", " ", "${LB_IP}", "not-an-ip", "10.0.0.0/33", "::ffff:10.0.0.1", "10.0.0.256"}
+	pool := blank
+	if rapid.Bool().Draw(t, "junk") {
+		pool = junk
+	}
+	peers := [][]byte{{127, 0, 0, 1}, {10, 1, 2, 3}, {172, 16, 5, 6}, {192, 168, 1, 1}, {169, 254, 0, 7}}
+	return c33LCase{
+		Entries: rapid.SliceOfN(rapid.SampledFrom(pool), 1, 4).Draw(t, "entries"),
+		Peer:    rapid.SampledFrom(peers).Draw(t, "peer"),
+	}
+}
+
+func TestVerif_C33List(t *testing.T) {
+	verifkit.Check(t, "C33", "unusable-list",
+		"proxyProtocolTrustedProxies lists of 1-4 entries none of which is a valid IP or CIDR (blank / whitespace entries as left by an unexpanded template, or junk: out-of-range prefix, IPv4-mapped form, non-addresses) handed to the real newProxyProtocol, then a PROXY v1 header from a peer inside the documented default ranges (loopback, 10/8, 172.16/12, 192.168/16, link-local); oracle: the list is refused, or if it is accepted the header does not change the client address - a network the operator never named is never trusted; every case is non-trivial",
+		c33LGen, c33LRun)
 }
